@@ -49,7 +49,7 @@ Notation e_not := (e_not KBcdd terms tid).
 Notation e_goi := (e_goi KBcdd terms nl tid cap).
 
 (** `reduce` *)
-Definition c_reduce (s : cst) (lvl : nat) (t e : edge) : OomOwnZK.kres :=
+Definition c_reduce (s : cst) (lvl : nat) (t e : edge) : OomOwnZK.krres :=
   if edge_eqb t e then
     match e_drop s e with Some s1 => KOk s1 t | None => KStuck end
   else if etag t then
@@ -59,9 +59,9 @@ Definition c_reduce (s : cst) (lvl : nat) (t e : edge) : OomOwnZK.kres :=
       match e_not s1 e with
       | None => KStuck
       | Some s2 =>
-        match e_goi s2 lvl (enot t) (enot e) with
+        match e_goi s2 lvl (eflip t) (eflip e) with
         | KOk s3 h =>
-          match e_not s3 h with Some s4 => KOk s4 (enot h) | None => KStuck end
+          match e_not s3 h with Some s4 => KOk s4 (eflip h) | None => KStuck end
         | KErr s3 => KErr s3
         | KStuck => KStuck
         end
@@ -94,8 +94,8 @@ Definition cc_terminal_xor (s : cst) (f g : edge) : ApplyBcdd.kres :=
   else
     match bc_view s f, bc_view s g with
     | Some (NVI fnode), Some (NVI gnode) => KNodes fnode gnode
-    | Some (NVI _), Some NVT => KDone (if etag g then f else enot f)
-    | Some NVT, Some (NVI _) => KDone (if etag f then g else enot g)
+    | Some (NVI _), Some NVT => KDone (if etag g then f else eflip f)
+    | Some NVT, Some (NVI _) => KDone (if etag f then g else eflip g)
     | Some NVT, Some NVT => kterm btsnap (negb (Bool.eqb (etag f) (etag g)))
     | _, _ => KFail
     end.
@@ -148,7 +148,7 @@ Fixpoint cbin_o (fuel : nat) (s : cst) (c : C) (op : cop) (f g : edge) : eres C 
 
 (** `Ok(not_owned(r?))` *)
 Definition onot_o (r : eres C) : eres C :=
-  ebind r (fun s c e => match e_not s e with Some s' => EOk s' c (enot e) | None => EStuck end).
+  ebind r (fun s c e => match e_not s e with Some s' => EOk s' c (eflip e) | None => EStuck end).
 
 (** `not_edge` *)
 Definition cnot_o (s : cst) (c : C) (f : edge) : eres C := onot_o (eclone_ret s c f).
@@ -157,13 +157,13 @@ Definition cnot_o (s : cst) (c : C) (f : edge) : eres C := onot_o (eclone_ret s 
 Definition cop_o (fuel : nat) (s : cst) (c : C) (o : bop) (f g : edge) : eres C :=
   match o with
   | OAnd => cbin_o fuel s c CAnd f g
-  | OOr => onot_o (cbin_o fuel s c CAnd (enot f) (enot g))
+  | OOr => onot_o (cbin_o fuel s c CAnd (eflip f) (eflip g))
   | ONand => onot_o (cbin_o fuel s c CAnd f g)
-  | ONor => cbin_o fuel s c CAnd (enot f) (enot g)
+  | ONor => cbin_o fuel s c CAnd (eflip f) (eflip g)
   | OXor => cbin_o fuel s c CXor f g
   | OEquiv => onot_o (cbin_o fuel s c CXor f g)
-  | OImp => onot_o (cbin_o fuel s c CAnd f (enot g))
-  | OImpStrict => cbin_o fuel s c CAnd (enot f) g
+  | OImp => onot_o (cbin_o fuel s c CAnd f (eflip g))
+  | OImpStrict => cbin_o fuel s c CAnd (eflip f) g
   end.
 
 (** the part of [apply_ite] after its terminal cases *)
@@ -191,11 +191,11 @@ Fixpoint cite_o (fuel : nat) (s : cst) (c : C) (f g h : edge) : eres C :=
       if Bool.eqb (etag g) (etag h) then eclone_ret s c g
       else onot_o (cbin_o fuel s c CXor f g)
     else if ref_eqb (eref f) (eref g) then
-      if Bool.eqb (etag f) (etag g) then onot_o (cbin_o fuel s c CAnd (enot f) (enot h))
-      else cbin_o fuel s c CAnd (enot f) h
+      if Bool.eqb (etag f) (etag g) then onot_o (cbin_o fuel s c CAnd (eflip f) (eflip h))
+      else cbin_o fuel s c CAnd (eflip f) h
     else if ref_eqb (eref f) (eref h) then
       if Bool.eqb (etag f) (etag h) then cbin_o fuel s c CAnd f g
-      else onot_o (cbin_o fuel s c CAnd f (enot g))
+      else onot_o (cbin_o fuel s c CAnd f (eflip g))
     else
       match bc_view s f with
       | None => EStuck
@@ -205,11 +205,11 @@ Fixpoint cite_o (fuel : nat) (s : cst) (c : C) (f g h : edge) : eres C :=
         | Some (NVI gnode), Some (NVI hnode) =>
           cite_step_o (par n) (fun s' c' f' g' h' => cite_o n s' c' f' g' h') s c f fnode g gnode h hnode
         | Some NVT, Some (NVI _) =>
-          if etag g then cbin_o fuel s c CAnd (enot f) h
-          else onot_o (cbin_o fuel s c CAnd (enot f) (enot h))
+          if etag g then cbin_o fuel s c CAnd (eflip f) h
+          else onot_o (cbin_o fuel s c CAnd (eflip f) (eflip h))
         | Some _, Some NVT =>
           if etag h then cbin_o fuel s c CAnd f g
-          else onot_o (cbin_o fuel s c CAnd f (enot g))
+          else onot_o (cbin_o fuel s c CAnd f (eflip g))
         | _, _ => EStuck
         end
       end
